@@ -27,21 +27,6 @@ def optStr : Option (List Char) → Json
 
 def lines (ls : List (List Char)) : Json := Json.arr (ls.map fun l => Json.str (t2s l)).toArray
 
-/-- reader of a written atom line (specification side): name, sfac, values -/
-def readAtom (line : List Char) : Option (Tok × Nat × List Rat) :=
-  match splitWs line with
-  | name :: sf :: rest =>
-    match parseDec sf, rest.mapM parseDec with
-    | some s, some vs => if s.den = 1 ∧ 0 ≤ s.num then some (name, s.num.toNat, vs) else none
-    | _, _ => none
-  | _ => none
-
-def closeVals : List Rat → List Rat → Nat → Bool
-  | [], [], _ => true
-  | a :: as, b :: bs, i =>
-    decide (absR (a - b) ≤ (if i < 3 then 1 / 1000000 else 1 / 100000)) && closeVals as bs (i + 1)
-  | _, _, _ => false
-
 def pairsPr (ps : List (Rat × Tok)) (x : Rat) : Tok :=
   match ps.find? (·.1 = x) with
   | some p => p.2
@@ -66,12 +51,10 @@ def handle (j : Json) : Except String Json := do
       else if kind = "iso" then ⟨name, sfac, xyz, sof, us ++ [0, 0, 0, 0, 0], false, 0⟩
       else ⟨name, sfac, xyz, sof, us, false, 0⟩
     let line := renderAtom a
-    let want := xyz ++ [sof] ++ us
+    let want := xyz.map (fun v => (v, tolCoord)) ++ [(sof, tolU)] ++ us.map (fun v => (v, tolU))
     let specOk := match line with
       | none => false
-      | some l => match readAtom l with
-        | some (n, s, vs) => n = name && s = sfac && closeVals want vs 0
-        | none => false
+      | some l => specAtomLine (splitWs l) name sfac want
     -- hypotheses of atom_render_close: the fields do not fuse, the kind the printer chooses is the kind of the input,
     -- and (open finding) a Q-peak's U is the constant the printer writes
     let fmt := if kind = "aniso" then anisFmt else if kind = "qpeak" then qpeakFmt else isoFmt
